@@ -467,6 +467,19 @@ class Session:
                 k = "trans:" + step["trans"]
                 self.counters[k] = self.counters.get(k, 0) + 1
             return
+        if "drop" in step:
+            # the program drops its last reference to an object (and to its children); a collection run
+            # makes sure it is really gone before anything else happens
+            import gc
+
+            dead = [hid for hid, H in self.model.handles.items() if H.root == step["drop"]]
+            for hid in dead:
+                self.objs.pop(hid, None)
+                self.model.handles[hid].attached = False
+            self.model.dropped = getattr(self.model, "dropped", set()) | set(dead)
+            gc.collect()
+            self.counters["drops"] = self.counters.get("drops", 0) + 1
+            return
         if "restore" in step:
             # the outside writer puts back, byte for byte, what the resource held ``restore`` snapshots ago
             hist = self.raw_history.get(step["res"], [])
